@@ -325,7 +325,19 @@ class ManifestContext:
             audio=audio_adps, video=video)
         video.append_cgi_params(self.cgi_params.video)
         for audio in audio_adps:
-            audio.append_cgi_params(self.cgi_params.audio)
+            aud_params = self.cgi_params.audio
+            if (self.options.audioErrors and audio.representations and
+                    audio is not audio_adps[0]):
+                # a time of day selects the segment that is live at that
+                # time, which depends upon the timing of this adaptation set
+                aud_params = dict(aud_params)
+                aud_params['aerr'] = self.calculate_injected_error_segments(
+                    self.options.audioErrors,
+                    self.now,
+                    self.options.availabilityStartTime,
+                    self.options.timeShiftBufferDepth,
+                    audio.representations[0])
+            audio.append_cgi_params(aud_params)
         for text in text_adps:
             text.append_cgi_params(self.cgi_params.text)
         if self.cgi_params.manifest:
